@@ -703,7 +703,9 @@ def check_c20(tier, seed):
         # the tool sees the hexadecimal arguments in upper case, lower case or mixed case depending on the case index;
         # the oracle always gets lower case
         def spell(hx, salt):
-            k = (idx + salt) % 4
+            k = (idx + salt) % 5
+            if k == 4:      # the separators the tools' parser accepts between bytes
+                return ":".join(hx[i:i + 2] for i in range(0, len(hx), 2)) if (idx // 5) % 2 else " ".join(hx[i:i + 2].upper() for i in range(0, len(hx), 2))
             return hx if k == 0 else (hx.upper() if k == 1 else "".join(ch.upper() if (i + k) % 2 else ch for i, ch in enumerate(hx)))
         opts = [["-b", str(bs * 8)], ["-k", spell(key, 0)]]
         if tw is not None:
